@@ -148,7 +148,7 @@ def parse_output(out):
     return res
 
 
-def run_units(units, repo, tier="quick", seed=0, tag="x", timeout=None):
+def run_units(units, repo, tier="quick", seed=0, tag="x", timeout=None, filters=None):
     reg = registry()
     results = {u: UnitResult(u) for u in units}
     t0 = time.time()
@@ -156,6 +156,9 @@ def run_units(units, repo, tier="quick", seed=0, tag="x", timeout=None):
     for u in units:
         for h in reg.UNITS[u]:
             if h.get("tier", "quick") == "thorough" and tier != "thorough":
+                continue
+            f = (filters or {}).get(u)
+            if f is not None and h["name"] not in f:
                 continue
             hh = dict(h)
             hh["unit"] = u
